@@ -143,7 +143,16 @@ def binding_demo(ctx):
     """Corrupt recorded observations of an accepted history of a group of two sources: Trace_Output must
     report the right predicate for exactly the corrupted run (one TLC run for the original and both corruptions)."""
     import os
-    d = os.path.join(ctx.workdir, "demo")
+    import shutil
+    d = ol.private_scratch(ctx)
+    try:
+        _binding_demo(ctx, d)
+    finally:
+        shutil.rmtree(d, ignore_errors=True)
+
+
+def _binding_demo(ctx, d):
+    import os
     ws = ol.Workspace(os.path.join(d, "ws"))
     sc = {"srcs": [2], "obj": [False], "grouped": True}
     with ws.activated():
